@@ -71,6 +71,13 @@ def gen(rng, prop=None):
 
     def ts(i):
         return (base + timedelta(days=rng.randint(0, 900), seconds=i)).strftime('%Y-%m-%d %H:%M:%S%z')
+    # text cells that look like numbers, and one identifier shared by several rows (partial fills of one order, one on-chain transaction
+    # seen in two tables): identifiers and notes are text and are kept as they are; rows are never merged
+    def uid(i):
+        return rng.choice(['u%d' % i, 'u%d' % i, '0012345', '4129e07', 'dup', 'dup', '0xa1'])
+
+    def note(i):
+        return rng.choice(['n %d' % i, 'n %d' % i, '2021', 'nan', 'x'])
     for i in range(rng.randint(1, 5)):
         r = dict(timestamp=ts(i), asset='B1', exchange=rng.choice(EXS), holder=rng.choice(HOS), transaction_type=rng.choice(['BUY', 'INTEREST', 'Gift', 'mining', 'STAKING', 'Airdrop', 'WAGES', 'Hardfork', 'income', 'DONATE']),
                  spot_price=rnum(rng), crypto_in=rnum(rng))
@@ -84,9 +91,9 @@ def gen(rng, prop=None):
         if rng.random() < 0.3:
             r['fiat_in_with_fee'] = rnum(rng)
         if rng.random() < 0.5:
-            r['unique_id'] = 'u%d' % i
+            r['unique_id'] = uid(i)
         if rng.random() < 0.5:
-            r['notes'] = 'n %d' % i
+            r['notes'] = note(i)
         recs['IN'].append(r)
     for i in range(rng.randint(0, 4)):
         typ = rng.choice(['SELL', 'GIFT', 'DONATE', 'LOST', 'STAKING', 'FEE'])
@@ -98,12 +105,20 @@ def gen(rng, prop=None):
             r['fiat_out_no_fee'] = rnum(rng)
         if rng.random() < 0.3:
             r['fiat_fee'] = rnum(rng, -2, 2)
+        if rng.random() < 0.4:
+            r['unique_id'] = uid(i)
+        if rng.random() < 0.4:
+            r['notes'] = note(i)
         recs['OUT'].append(r)
     for i in range(rng.randint(0, 3)):
         s = rnum(rng)
         f = rng.choice([0.0, s * 0.01, s])          # s: the whole transfer is eaten by the fee (0 received)
         r = dict(timestamp=ts(i), asset='B1', from_exchange='Coinbase', from_holder='Bob', to_exchange='Kraken', to_holder=rng.choice(HOS),
                  spot_price=rnum(rng) if (f > 0 or rng.random() < 0.5) else None, crypto_sent=s, crypto_received=s - f)
+        if rng.random() < 0.4:
+            r['unique_id'] = uid(i)
+        if rng.random() < 0.4:
+            r['notes'] = note(i)
         recs['INTRA'].append(r)
     order = rng.sample(['IN', 'OUT', 'INTRA'], 3)
     rows = []
@@ -145,6 +160,8 @@ def inject(rng, case):
         names = [f for f in m if f in ('exchange', 'holder', 'from_exchange', 'from_holder', 'to_exchange', 'to_holder')]
         for f in names:
             opts.append((f"unknown-{'exchange' if 'exchange' in f else 'holder'}", ri, m[f], 'ZZZ'))
+            if isinstance(rows[ri][m[f]], str):      # a configured name with a blank around it is another, unknown, name
+                opts.append((f"unknown-{'exchange' if 'exchange' in f else 'holder'}-padded", ri, m[f], rng.choice([rows[ri][m[f]] + ' ', ' ' + rows[ri][m[f]]])))
         opts.append(("asset-differs-from-sheet", ri, m['asset'], 'B2'))
         opts.append(("unknown-asset", ri, m['asset'], 'ZZZ'))
         opts.append(("naive-timestamp", ri, m['timestamp'], '2020-03-04 05:06:07'))
@@ -246,7 +263,9 @@ def units(x):
 
 
 def acct(e, h):
-    return EXS.index(e) * 1000 + HOS.index(h)
+    """account number as the model counts them; a name that is not configured (only possible if the parser accepted one) gets a number
+    outside the configured range instead of making the harness fail"""
+    return (EXS.index(e) if e in EXS else 900 + len(e)) * 1000 + (HOS.index(h) if h in HOS else 900 + len(h))
 
 
 def run_impl(case):
@@ -391,12 +410,16 @@ def oracle_c11(case, res, guard=True):
             return f"OUT row {rowid[('OUT', k)]}: fiat_fee {t.fiat_fee} vs cell {r['fiat_fee']!r}"
         if r.get('fiat_out_no_fee') is not None and Decimal(t.fiat_out_no_fee) != q11(r['fiat_out_no_fee']):
             return f"OUT row {rowid[('OUT', k)]}: fiat_out_no_fee {t.fiat_out_no_fee} vs cell {r['fiat_out_no_fee']!r}"
+        if t.unique_id != (r.get('unique_id') or '') or t.notes != (r.get('notes') or ''):
+            return f"OUT row {rowid[('OUT', k)]}: unique_id/notes {t.unique_id!r}/{t.notes!r} differ from the cells {r.get('unique_id')!r}/{r.get('notes')!r}"
     for k, r in enumerate(recs['INTRA']):
         t = xs[rowid[('INTRA', k)]]
         if Decimal(t.crypto_sent) != q11(r['crypto_sent']) or Decimal(t.crypto_received) != q11(r['crypto_received']) or t.to_holder != r['to_holder'] or t.from_exchange != r['from_exchange'] or t.to_exchange != r['to_exchange']:
             return f"INTRA row {rowid[('INTRA', k)]}: sent/received/accounts differ from the cells"
         if r.get('spot_price') is not None and Decimal(t.spot_price) != q11(r['spot_price']):
             return f"INTRA row {rowid[('INTRA', k)]}: spot_price {t.spot_price} vs cell {r['spot_price']!r}"
+        if t.unique_id != (r.get('unique_id') or '') or t.notes != (r.get('notes') or ''):
+            return f"INTRA row {rowid[('INTRA', k)]}: unique_id/notes {t.unique_id!r}/{t.notes!r} differ from the cells {r.get('unique_id')!r}/{r.get('notes')!r}"
     return None
 
 
